@@ -323,6 +323,7 @@ func (ex *Exec) elemStore(st *State, sl SliceV, idx *Term, v Value) {
 
 func (ex *Exec) freshRef(st *State, pc *Term, hint string) *Term {
 	r := Fresh(hint, SRef)
+	MarkFresh(r)
 	al := st.get("alloc", SArr(SRef, SBool))
 	ex.assume(pc, And(Neq(r, RefNil()), Not(Select(al, r))))
 	st.set("alloc", Store(al, r, True))
@@ -355,6 +356,11 @@ func (fr *Frame) execInstr(ins ssa.Instruction, pc *Term, st *State) (*Term, *St
 		t := x.Type().(*types.Pointer).Elem()
 		if x.Heap && isHeapObjectType(t) {
 			fr.regs[x] = ex.allocObj(st, t, pc, x.Comment)
+		} else if at, isArr := t.Underlying().(*types.Array); isArr && x.Heap && x.Comment == "makeslice" && isScalarElem(at.Elem()) {
+			// make([]T, const): the backing array of a slice
+			n := BV(uint64(at.Len()), 64)
+			sl := ex.allocSlice(st, at.Elem(), n, n, pc, "make")
+			fr.regs[x] = PtrV{Kind: PDyn, Ref: sl.ID, Root: t}
 		} else {
 			c := ex.newCell(x.Comment, t)
 			fr.cells[x] = c
@@ -607,6 +613,8 @@ func (ex *Exec) sliceOfArrayPtr(p Value, at *types.Array) (SliceV, bool) {
 			return SliceV{}, false
 		}
 		switch x.Kind {
+		case PDyn:
+			return SliceV{St: StDyn, ID: x.Ref, Off: BV(0, 64), Len: n, Cap: n, Elem: at.Elem()}, true
 		case PLocal, PGlobal:
 			return SliceV{St: StLocal, Cell: x.Cell, Path: x.Path, Off: BV(0, 64), Len: n, Cap: n, Elem: at.Elem()}, true
 		case PHeap:
@@ -1170,3 +1178,5 @@ func (ex *Exec) escapeSlice(st *State, v Value, pc *Term) Value {
 	ex.note("a slice of a local/field array stored in the heap is represented by a copy (aliasing between the two not modelled)")
 	return out
 }
+
+func isScalarElem(t types.Type) bool { _, ok := scalarSort(t); return ok }
